@@ -549,9 +549,17 @@ func (l *loopState) notifySteps() { //nolint:gocognit
 		// untypedInputData stores the resolved data
 		untypedInputData, err := l.resolveExpressions(inputData, l.data)
 		if err != nil {
-			// An error here often indicates a locking issue in a step provider. This could be caused
-			// by the lock not being held when the output was marked resolved.
-			panic(fmt.Errorf("cannot resolve expressions for %s (%w)", nodeID, err))
+			// The expressions could not be evaluated with the data available at run time, for example
+			// because of an absent optional value or a failing function call. Report it like the other
+			// run-time faults instead of crashing the process. The send must not block while the lock
+			// is held; if the buffer is already full of errors this one adds no information.
+			l.logger.Errorf("Cannot resolve expressions for %s (%v)", nodeID, err)
+			select {
+			case l.recentErrors <- fmt.Errorf("cannot resolve expressions for %s (%w)", nodeID, err):
+			default:
+			}
+			l.cancel()
+			return
 		}
 
 		// This switch checks to see if it's a node that needs to be run.
